@@ -757,3 +757,39 @@ pub proof fn lemma_mm_pairs_sized(f: Seq<GTree>)
         }
     }
 }
+
+// ---- build_remove_marker_all: interleaving ready and pending markers (mirror of the loops) ----
+/// pending markers consumed in front of the ready marker r, starting at cursor c: (items listed, new cursor)
+pub open spec fn consume_pending(r: Range<usize>, p: Seq<RemoveMarker>, c: int) -> (Seq<(RemoveMarker, bool)>, int)
+    decreases p.len() - c,
+{
+    if 0 <= c < p.len() && p[c].0.start < r.end {
+        let rest = consume_pending(r, p, c + 1);
+        let squash = rcontains(r, p[c].0.start) && rcontains(r, p[c].0.end);
+        ((if squash { Seq::empty() } else { seq![(p[c], false)] }) + rest.0, rest.1)
+    } else { (Seq::empty(), c) }
+}
+/// list and pending cursor after the first n ready markers
+pub open spec fn merge_all(rs: Seq<RemoveMarker>, p: Seq<RemoveMarker>, n: int) -> (Seq<(RemoveMarker, bool)>, int)
+    decreases n,
+{
+    if n <= 0 { (Seq::empty(), 0) } else {
+        let prev = merge_all(rs, p, n - 1);
+        let cp = consume_pending(rs[n - 1].0, p, prev.1);
+        (prev.0 + cp.0 + seq![(rs[n - 1], true)], cp.1)
+    }
+}
+pub open spec fn pending_tail(p: Seq<RemoveMarker>, c: int) -> Seq<(RemoveMarker, bool)> {
+    Seq::new((p.len() - c) as nat, |k: int| (p[c + k], false))
+}
+pub open spec fn merge_all_final(rs: Seq<RemoveMarker>, p: Seq<RemoveMarker>) -> Seq<(RemoveMarker, bool)> {
+    let m = merge_all(rs, p, rs.len() as int);
+    m.0 + (if m.1 < p.len() { pending_tail(p, m.1) } else { Seq::empty() })
+}
+pub proof fn lemma_consume_pending_bounds(r: Range<usize>, p: Seq<RemoveMarker>, c: int)
+    requires 0 <= c <= p.len(),
+    ensures c <= consume_pending(r, p, c).1 <= p.len(),
+    decreases p.len() - c,
+{
+    if c < p.len() && p[c].0.start < r.end { lemma_consume_pending_bounds(r, p, c + 1); }
+}
